@@ -124,6 +124,9 @@ def worker(ctx):
         else:
             cc = draw(gdlgen.c06_case(max_len=10, nprobes=1))
             base = dict(kind='spec', spec=cc['spec'])
+            if cc['spec'].get('feats') and draw(st.integers(0, 2)) == 0:
+                # every feature hidden (Feat flag 0x0800): gr_face_n_fref() is 0 although gr_face_find_fref still finds them
+                base['spec'] = dict(cc['spec'], feats=[dict(f, flags=0x0800) for f in cc['spec']['feats']])
             pool = [gdlgen.cp_of(g) for g in range(1, len(cc['spec']['glyphs']))]
             ranges = None
         ops = [dict(k='report')]
@@ -133,6 +136,8 @@ def worker(ctx):
             if c <= 3: ops.append(dict(k='seg', text=t, dir=draw(st.integers(0, 7)), enc=4, keep=draw(st.booleans()), font=draw(st.integers(-1, 1)), fv=draw(st.integers(-1, 1))))
             elif c == 4: ops.append(dict(k='font', ppm=12.0))
             elif c == 5: ops.append(dict(k='fv', tag=draw(st.sampled_from([0, 0x656E0000]))))
+            elif c == 6 and base['kind'] == 'spec' and base['spec'].get('feats') and draw(st.booleans()):
+                ops.append(dict(k='label_id', id=draw(st.sampled_from([f['id'] for f in base['spec']['feats']])), s=draw(st.integers(-1, 2)), lang=0x409, enc=draw(st.sampled_from([1, 2, 4]))))
             elif c == 6: ops.append(dict(k='label', f=draw(st.integers(0, 6)), s=draw(st.integers(-1, 2)), lang=0x409, enc=draw(st.sampled_from([1, 2, 4]))))
             elif c == 7: ops.append(dict(k='report'))
             elif c == 8: ops.append(dict(k='destroy_seg', i=draw(st.integers(0, 4))))
